@@ -6,9 +6,15 @@ use log::{debug, trace};
 use rustc_hash::FxHashMap;
 use thiserror::Error;
 
+#[cfg(not(chess_verif_shuttle))]
 use rayon::prelude::*;
+#[cfg(chess_verif_shuttle)]
+use verif_simpool::prelude::*;
 use std::cmp::{max, min};
+#[cfg(not(chess_verif_shuttle))]
 use std::sync::{Arc, RwLock};
+#[cfg(chess_verif_shuttle)]
+use verif_simpool::sync::{Arc, RwLock};
 
 use self::prioritize_chess_moves::sort_chess_moves;
 
